@@ -73,7 +73,7 @@ def run_read(cases, wd, tag="read", timeout=900, isolated=False, go_env=None):
             chk_lex.seed_tables(c, c["base"])
     if isolated:
         go_raw, culprits = cm.run_isolated(impl, "read", [(c["id"], read_lines(c)) for c in cases], wd, tag + "go", timeout=60,
-                                           env=go_env, mem_bytes=8 << 30)
+                                           env=go_env, mem_bytes=16 << 30)
         crashed = []
     else:
         go_raw, crashed = cm.run_sharded(impl, "read", [(c["id"], read_lines(c)) for c in cases], wd, tag + "go", timeout=timeout, extra_env=go_env)
